@@ -9,6 +9,7 @@ Nothing is sampled: the universe is the complete set of terms up to the stated b
 Files are rewritten only when their content changes (keeps cargo fingerprints stable).
 """
 import hashlib
+import re
 import json
 import os
 import sys
@@ -179,11 +180,10 @@ def universe(tier):
         gens += [inst("GP", [a, T("u8", True, True, "u8", 0)]), inst("GD", [a, 2]), inst("GE", [a, vec(prim("u8"))])]
         if a.zc:
             gens += [inst("GZI", [a])]
-            # F15: a zero-copy item with an inline-bounded field parameter only accepts
-            # arguments whose ε-type is themselves (the derive also bounds DeserType<A>);
-            # other instantiations are C05 probes, not universe members.
-            if a.eps == a.expr:
-                gens += [inst("ZG", [a])]
+            # F15 (repaired): with the pinned derive a zero-copy item with a bounded field
+            # parameter only accepts arguments whose ε-type is themselves; the other
+            # instantiations cannot be compiled against the pinned build (no golden data).
+            gens += [inst("ZG", [a])]
         if not a.zero:
             gens += [inst("GI", [a]), inst("GEI", [a])]
     small = [prim("u8"), STRING, vec(prim("u32")), inst("P1"), inst("Z16"), vec(STRING)]
@@ -196,7 +196,7 @@ def universe(tier):
     # nesting of generic items
     g1v = inst("G1", [vec(prim("u8"))])
     gens += [inst("G1", [g1v]), inst("G1", [inst("G2", [STRING, vec(prim("u32"))])]), inst("W", [inst("ZG", [prim("u16")])]), inst("G1", [vec(inst("ZG", [prim("u32")]))]),
-             inst("G2", [g1v, inst("GE", [STRING, vec(prim("u8"))])]), inst("GI", [g1v]), inst("ZG", [prim("f64")]), inst("ZG", [prim("u128")])]
+             inst("G2", [g1v, inst("GE", [STRING, vec(prim("u8"))])]), inst("GI", [g1v]), inst("ZG", [prim("f64")]), inst("ZG", [prim("u128")]), inst("ZG", [inst("ZG", [inst("P1")])])]
     for g in gens:
         add(g)
         wr = ([vec(g), opt(g), arr(g, 3)] if g.seq_ok else [opt(g)]) if tier == 'thorough' else ([vec(g)] if g.seq_ok else [opt(g)])
@@ -254,6 +254,14 @@ def emit_udefs():
     write_if_changed(os.path.join(H, "udefs/src/lib.rs"), s)
 
 
+def postfix(x):
+    """Types that only compile with the repaired derive (F15): ZG<non-primitive>."""
+    for m in re.finditer(r"ZG<([A-Za-z0-9]+)", x.expr):
+        if m.group(1) not in PRIMS:
+            return True
+    return "ZG<(" in x.expr or "ZG<[" in x.expr
+
+
 def emit_shards(q, t):
     qset = {x.expr for x in q}
     allt = list(q) + [x for x in t if x.expr not in qset]
@@ -262,12 +270,16 @@ def emit_shards(q, t):
         shards[i % NSHARDS].append((i, x, x.expr in qset))
     for k, items in enumerate(shards):
         s = PRELUDE + "use udefs::*;\n\npub fn register(v: &mut Vec<vcore::Entry>) {\n"
+        def cfg_of(x, isq, ind):
+            c = "" if isq else ind + '#[cfg(feature = "thorough")]\n'
+            if postfix(x):
+                c += ind + '#[cfg(not(feature = "pinned"))]\n'
+            return c
         for i, x, isq in items:
-            cfg = "" if isq else '    #[cfg(feature = "thorough")]\n'
-            s += f'{cfg}    v.push(vcore::entry::<{x.expr}>({json.dumps(x.expr)}));\n'
+            s += f'{cfg_of(x, isq, "    ")}    v.push(vcore::entry::<{x.expr}>({json.dumps(x.expr)}));\n'
         s += "}\n\n"
         for i, x, isq in items:
-            cfg = "" if isq else '#[cfg(feature = "thorough")]\n'
+            cfg = cfg_of(x, isq, "")
             s += f"{cfg}fn _eps_type_{i}<'a>(b: &'a [u8]) -> epserde::deser::Result<{x.eps}> {{ <{x.expr} as epserde::deser::Deserialize>::deserialize_eps(b) }}\n"
         d = os.path.join(H, f"us{k:02d}")
         write_if_changed(os.path.join(d, "src/lib.rs"), s)
@@ -278,6 +290,7 @@ edition = "2021"
 
 [features]
 thorough = []
+pinned = []
 
 [dependencies]
 vcore = {{ path = "../vcore" }}
